@@ -256,24 +256,6 @@ Definition string_ok (x out : str) : bool :=
   | _ => false
   end.
 
-Definition module_prefix : str := s "// generated by nitrogql" ++ [LF] ++ s "export const schema = ".
-Fixpoint strip_prefix (p x : str) : option str :=
-  match p, x with
-  | [], _ => Some x
-  | a :: p', c :: x' => if a =? c then strip_prefix p' x' else None
-  | _, [] => None
-  end.
-(** the exported value of the module text, by the specification of template literals *)
-Definition module_value (text : str) : option str :=
-  match strip_prefix module_prefix text with
-  | Some r =>
-      match rev r with
-      | nl1 :: semi :: r' => if (nl1 =? LF) && (semi =? 59) then eval_template (rev r') else None
-      | _ => None
-      end
-  | None => None
-  end.
-
 Definition holds (c : case) : bool :=
   match c with
   | CStr x out => string_ok x out
